@@ -15,6 +15,8 @@ COORD_FN = {
     "shift": lambda i, c, p: c + 2,
     "reverse": lambda i, c, p: 10 - c,
     "double": lambda i, c, p: 2 * c,
+    "mirror": lambda i, c, p: -c,
+    "recentre": lambda i, c, p: c - 1,
 }
 VAL_FN = {"inc": lambda v: v + 1, "zero": lambda v: 0, "dbl": lambda v: 2 * v}
 
